@@ -1,12 +1,92 @@
 import Driver.Util
+import Faithful.Lib.EpochLoad
+import Faithful.Lib.IndexMeta
+import Faithful.Lib.IndexAll
 open Drv
 
 namespace DrvC10
+open EpochLoad Generated
+
+/-- optional field: `_` = absent -/
+def optBytes (s : String) : Option Bytes := if s = "_" then none else some (unhex s)
+def optNat (s : String) : Option Nat := if s = "_" then none else s.toNat?
+
+/-- `compact:<kind>:<epoch>:<root>:<network>` | `legacy` | `bucketteer:<e>:<r>:<n>` | `bucketteerLegacy` |
+    `manifest:<version>:<e>:<r>:<n>` | `blocktime:<e>` | anything else = unreadable -/
+def parseFile (s : String) : FileId :=
+  match s.splitOn ":" with
+  | ["compact", k, e, r, n] => .compact (unhex k) e.toNat! (unhex r) (unhex n)
+  | ["legacy"] => .compactLegacy
+  | ["bucketteer", e, r, n] => .bucketteer (optNat e) (optBytes r) (optBytes n)
+  | ["bucketteerLegacy"] => .bucketteerLegacy
+  | ["manifest", v, e, r, n] => .manifest v.toNat! (optNat e) (optBytes r) (optBytes n)
+  | ["blocktime", e] => .blocktime e.toNat!
+  | _ => .unreadable
+
+def roleName : LRole → String
+  | .cidToOffsetAndSize => "cidToOffsetAndSize"
+  | .slotToCid => "slotToCid"
+  | .sigToCid => "sigToCid"
+  | .sigExists => "sigExists"
+  | .gsfaManifest => "gsfaManifest"
+  | .gsfaPubkeyIndex => "gsfaPubkeyIndex"
+  | .slotToBlocktime => "slotToBlocktime"
+
+def showLoad : Except Err Loaded → String
+  | .ok L => "ok " ++ (match L.root with | some r => hex r | none => "none")
+  | .error (.reject r) => "reject:" ++ roleName r
+  | .error .filecoinRoot => "reject:filecoinRoot"
+  | .error .unknown => "unknown"
+
+def showOpt (o : Option Bytes) : String := match o with | some b => hex b | none => "_"
+
+def parseKV (s : String) : Bytes × Bytes :=
+  match s.splitOn ":" with
+  | [k, v] => (unhex k, unhex v)
+  | _ => ([], [])
+
+def step (l : String) : String :=
+  match words l with
+  | ["load", e, fc, dep, g, fcroot, cid, slot, sig, se, man, pk, bt] =>
+    let cfg : Config := ⟨⟨fc == "1", dep == "1", g == "1"⟩, e.toNat!, unhex fcroot⟩
+    let fs : FileSet := fun r =>
+      match r with
+      | .cidToOffsetAndSize => parseFile cid
+      | .slotToCid => parseFile slot
+      | .sigToCid => parseFile sig
+      | .sigExists => parseFile se
+      | .gsfaManifest => parseFile man
+      | .gsfaPubkeyIndex => parseFile pk
+      | .slotToBlocktime => parseFile bt
+    showLoad (load cfg fs)
+  | "menc" :: kvs =>
+    match IndexMeta.encode (kvs.map parseKV) with
+    | some b => hex b
+    | none => "err"
+  | ["mdec", h] =>
+    match IndexMeta.decode (unhex h) with
+    | none => "err"
+    | some [] => "empty"
+    | some m => " ".intercalate (m.map fun kv => hex kv.1 ++ ":" ++ hex kv.2)
+  | ["ident", h] =>
+    match IndexMeta.decode (unhex h) with
+    | none => "err"
+    | some m =>
+      let ep := match IndexMeta.getUint64 m IndexMeta.keyEpoch with
+        | .absent => "_" | .panic => "panic" | .val n => toString n
+      s!"kind={showOpt (IndexMeta.get m IndexMeta.keyKind)} epoch={ep} root={showOpt (IndexMeta.get m IndexMeta.keyRootCid)} network={showOpt (IndexMeta.get m IndexMeta.keyNetwork)}"
+  | ["fetch", _variant, c, _off, sz, bytes] =>
+    -- `bytes` = what the CAR behind the epoch holds at [off, off+sz) (shorter if the file ends before)
+    match Car.nodeAt (unhex bytes) 0 sz.toNat! (unhex c) with
+    | some d => s!"ok {d.length} {hexNat (H.xxhash64 d).toNat 16}"
+    | none => "err"
+  | "case" :: _ => "ok"
+  | _ => "bad-op"
 
 /-- model side of the C10 line protocol: one answer line per op line -/
 def run (lines : Array String) : IO Unit := do
   let out ← IO.getStdout
-  for _ in lines do
-    out.putStrLn "unimplemented"
+  for l in lines do
+    out.putStrLn (step l)
 
 end DrvC10
